@@ -14,7 +14,7 @@ import (
 func init() {
 	register(&propDef{
 		ID:          "C09",
-		Explanation: "The fixpoint equation fmt(fmt(x)) == fmt(x) itself is not decided. Decides the structural necessary condition named by the property's anchors — line-break decisions depend only on layout flags that re-parsing the output reproduces: the parser derives each layout flag (Element.IndentChildren, Element.IndentAttrs, GoCode.Multiline) from the presence of a line break inside a source span, so on the flag=false branch the formatter itself must add no line break inside that span, and on the flag=true branch it must add one. R1 in the node-list writer, the line-break constant can reach the trailing-space write only under the `indent` mode (every assignment of a newline-containing constant to the written value is control-dependent on the indent parameter; values taken from the source node are carried over, not added); R2 for each flag, the constants written directly on the false branch contain no line break and the true branch writes at least one; R3 no attribute writer (they run inside the open-tag span) writes a line-break constant unconditionally; R5 a formatter function that writes a trimmed copy of a field tests that same copy (not the raw field) for line breaks; R6 the import rewriter that `templ fmt` runs takes its decision on the number of imports only after the import set is final; R7 the node-list writer takes the recorded trailing space of every node kind that records one (through the interface, or a type switch covering all implementers); R8 the language server's formatting answer is one edit from 0:0 to <number of lines>:0 carrying the formatter's output, so format-on-save and `templ fmt` produce the same file; R4 (purity) no formatter function (Write/String methods of parser nodes and what they call in the package) reads mutable package-level state, the clock, the environment or iterates a map. NOT decided: nodes whose grammar allows but does not require a line break inside a single-line element (block component calls), expression text re-formatting by go/format, the fixpoint on concrete files.",
+		Explanation: "The fixpoint equation fmt(fmt(x)) == fmt(x) itself is not decided. Decides the structural necessary condition named by the property's anchors — line-break decisions depend only on layout flags that re-parsing the output reproduces: the parser derives each layout flag (Element.IndentChildren, Element.IndentAttrs, GoCode.Multiline) from the presence of a line break inside a source span, so on the flag=false branch the formatter itself must add no line break inside that span, and on the flag=true branch it must add one. R1 in the node-list writer, the line-break constant can reach the trailing-space write only under the `indent` mode (every assignment of a newline-containing constant to the written value is control-dependent on the indent parameter; values taken from the source node are carried over, not added); R2 for each flag, the constants written directly on the false branch contain no line break and the true branch writes at least one; R3 no attribute writer (they run inside the open-tag span) writes a line-break constant unconditionally; R5 a formatter function that writes a trimmed copy of a field tests that same copy (not the raw field) for line breaks; R6 the import rewriter that `templ fmt` runs takes its decision on the number of imports only after the import set is final; R7 the node-list writer takes the recorded trailing space of every node kind that records one (through the interface, or a type switch covering all implementers); R8 the language server's formatting answer is one edit from 0:0 to <number of lines>:0 carrying the formatter's output, so format-on-save and `templ fmt` produce the same file; R9 (= C08.R7) a flag derived from a sibling field is derived from its final value (a quote choice taken before decoding yields output that the next pass cannot parse); R4 (purity) no formatter function (Write/String methods of parser nodes and what they call in the package) reads mutable package-level state, the clock, the environment or iterates a map. NOT decided: nodes whose grammar allows but does not require a line break inside a single-line element (block component calls), expression text re-formatting by go/format, the fixpoint on concrete files.",
 		Assumptions: []string{"the parser sets a layout flag iff the corresponding source span contains a line break (elementparser.go / gocodeparser.go)"},
 		Trusted:     []string{"go/types", "x/tools go/packages"},
 		Run:         runC09,
@@ -70,6 +70,7 @@ func runC09(c *Ctx) {
 	c.load("./parser/v2", "./generator", "./cmd/templ/imports", "./cmd/templ/lspcmd/proxy")
 	trailerInterfaceCovered(c, "C09.R7")
 	formatEditCoversDocument(c, "C09.R8")
+	derivedFlagsFresh(c, "C09.R9")
 	p := c.pkg("parser/v2")
 	info := p.TypesInfo
 
@@ -658,6 +659,37 @@ func trailerInterfaceCovered(c *Ctx, rule string) {
 	}
 	sort.Strings(implementers)
 	c.count("node_kinds_recording_trailing_space", len(implementers))
+	// every node kind that RECORDS a trailing space (has a field of that type) offers it through the interface as a
+	// value: nodes are stored in []Node as values, so a method on the pointer receiver is invisible to the writer
+	for _, nm := range pp.Types.Scope().Names() {
+		tn, ok := pp.Types.Scope().Lookup(nm).(*types.TypeName)
+		if !ok {
+			continue
+		}
+		st, ok := tn.Type().Underlying().(*types.Struct)
+		if !ok {
+			continue
+		}
+		records := false
+		for i := 0; i < st.NumFields(); i++ {
+			if types.Identical(st.Field(i).Type(), tsT.Type()) {
+				records = true
+			}
+		}
+		if !records {
+			continue
+		}
+		byValue := types.Implements(tn.Type(), iface)
+		byPtr := types.Implements(types.NewPointer(tn.Type()), iface)
+		why := ""
+		if !byValue && byPtr {
+			why = "its " + iface.Method(0).Name() + " method has a pointer receiver, but nodes are stored as values: the type assertion in the node-list writer fails silently"
+		} else if !byValue {
+			why = "it has no " + iface.Method(0).Name() + " method"
+		}
+		c.check(why == "", rule, pp.PkgPath+"."+nm+"|recorded-trailing-space-is-offered", c.pos(tn.Pos()), nm+" values implement "+trailer.Obj().Name(),
+			fmt.Sprintf("%s records the whitespace that followed it in the source, but %s: the formatter falls back to a line break after every such node, so a single-line element containing one gains a line break in the first pass and is re-indented in the second", nm, why))
+	}
 	// the writer: a function with a local of type TrailingSpace that is written to the output
 	found := false
 	for _, fd := range allFuncDecls(pp) {
